@@ -653,7 +653,6 @@ theorem bshapeN_eq_spec (shapes : List (List Nat)) :
       have hi : i < maxRank shapes := by rw [nDims_length] at h1; exact h1
       simp only [List.getElem_map, List.getElem_range]
       rw [padCol_eq _ _ hi]
-      have hr : (nDims shapes).reverse.reverse = nDims shapes := List.reverse_reverse _
       have : (nDims shapes)[i] = ext (nDims shapes) (maxRank shapes - 1 - i) := by
         rw [ext_lt (by rw [nDims_length]; omega)]
         congr 1
@@ -661,4 +660,617 @@ theorem bshapeN_eq_spec (shapes : List (List Nat)) :
       rw [this, ext_nDims']
   · rw [if_neg (fun hh => h (hall.mp hh)), bshapeN_of_not_ok h]
 
+/-! ## `_get_expanded_coords_data` -/
+namespace COO
+variable {α : Type}
+
+/-- `Match ps d ei j`: result index `j` is one of the indices that the nested loops over the
+parameter list `ps` (starting at operand axis `d`) produce for a stored entry with index `ei`:
+a non-broadcast axis copies the entry's coordinate, every other axis ranges over its extent. -/
+def Match : List (Option Bool × Nat) → Nat → Idx → Idx → Prop
+  | [], _, _, j => j = []
+  | (some true, _) :: rest, d, ei, j => ∃ j', j = ei.getD d 0 :: j' ∧ Match rest (d + 1) ei j'
+  | (some false, sh) :: rest, d, ei, j => ∃ b j', j = b :: j' ∧ b < sh ∧ Match rest (d + 1) ei j'
+  | (none, sh) :: rest, d, ei, j => ∃ b j', j = b :: j' ∧ b < sh ∧ Match rest d ei j'
+
+theorem mem_map_cons {L : List (Idx × α)} {c : Nat} {j : Idx} {v : α} :
+    (j, v) ∈ L.map (fun r => (c :: r.1, r.2)) ↔ ∃ j', j = c :: j' ∧ (j', v) ∈ L := by
+  rw [List.mem_map]
+  constructor
+  · rintro ⟨⟨j', v'⟩, hm, he⟩
+    simp only [Prod.mk.injEq] at he
+    exact ⟨j', he.1.symm, he.2 ▸ hm⟩
+  · rintro ⟨j', rfl, hm⟩
+    exact ⟨(j', v), hm, rfl⟩
+
+theorem mem_range_flatMap_cons {L : List (Idx × α)} {sh : Nat} {j : Idx} {v : α} :
+    (j, v) ∈ (List.range sh).flatMap (fun b => L.map fun r => (b :: r.1, r.2)) ↔
+      ∃ b j', j = b :: j' ∧ b < sh ∧ (j', v) ∈ L := by
+  rw [List.mem_flatMap]
+  constructor
+  · rintro ⟨b, hb, hm⟩
+    obtain ⟨j', hj, hm'⟩ := mem_map_cons.mp hm
+    exact ⟨b, j', hj, List.mem_range.mp hb, hm'⟩
+  · rintro ⟨b, j', hj, hb, hm⟩
+    exact ⟨b, List.mem_range.mpr hb, mem_map_cons.mpr ⟨j', hj, hm⟩⟩
+
+theorem mem_expandGo_some (ps : List (Option Bool × Nat)) (es : List (Idx × α)) (e : Idx × α) :
+    ∀ (d : Nat) (j : Idx) (v : α), (j, v) ∈ expandGo ps d (some e) es ↔ v = e.2 ∧ Match ps d e.1 j := by
+  induction ps with
+  | nil =>
+    intro d j v
+    simp only [expandGo, Match, List.mem_singleton, Prod.mk.injEq]
+    exact And.comm
+  | cons p rest ih =>
+    intro d j v
+    obtain ⟨o, sh⟩ := p
+    match o with
+    | some true =>
+      simp only [expandGo, Match]
+      rw [mem_map_cons]
+      constructor
+      · rintro ⟨j', hj, hm⟩
+        have := (ih _ _ _).mp hm
+        exact ⟨this.1, j', hj, this.2⟩
+      · rintro ⟨hv, j', hj, hm⟩
+        exact ⟨j', hj, (ih _ _ _).mpr ⟨hv, hm⟩⟩
+    | some false =>
+      simp only [expandGo, Match]
+      rw [mem_range_flatMap_cons]
+      constructor
+      · rintro ⟨b, j', hj, hb, hm⟩
+        have := (ih _ _ _).mp hm
+        exact ⟨this.1, b, j', hj, hb, this.2⟩
+      · rintro ⟨hv, b, j', hj, hb, hm⟩
+        exact ⟨b, j', hj, hb, (ih _ _ _).mpr ⟨hv, hm⟩⟩
+    | none =>
+      simp only [expandGo, Match]
+      rw [mem_range_flatMap_cons]
+      constructor
+      · rintro ⟨b, j', hj, hb, hm⟩
+        have := (ih _ _ _).mp hm
+        exact ⟨this.1, b, j', hj, hb, this.2⟩
+      · rintro ⟨hv, b, j', hj, hb, hm⟩
+        exact ⟨b, j', hj, hb, (ih _ _ _).mpr ⟨hv, hm⟩⟩
+
+theorem mem_expandGo_none (ps : List (Option Bool × Nat)) (es : List (Idx × α)) :
+    ∀ (d : Nat) (j : Idx) (v : α),
+      (j, v) ∈ expandGo ps d none es ↔ ∃ e ∈ es, v = e.2 ∧ Match ps d e.1 j := by
+  induction ps with
+  | nil =>
+    intro d j v
+    simp only [expandGo, Match, List.mem_map, Prod.mk.injEq]
+    constructor
+    · rintro ⟨e, he, h1, h2⟩; exact ⟨e, he, h2.symm, h1.symm⟩
+    · rintro ⟨e, he, h1, h2⟩; exact ⟨e, he, h2.symm, h1.symm⟩
+  | cons p rest ih =>
+    intro d j v
+    obtain ⟨o, sh⟩ := p
+    match o with
+    | some true =>
+      simp only [expandGo, Match]
+      rw [List.mem_flatMap]
+      constructor
+      · rintro ⟨e, he, hm⟩
+        obtain ⟨j', hj, hm'⟩ := mem_map_cons.mp hm
+        have := (mem_expandGo_some rest es e _ _ _).mp hm'
+        exact ⟨e, he, this.1, j', hj, this.2⟩
+      · rintro ⟨e, he, hv, j', hj, hm⟩
+        exact ⟨e, he, mem_map_cons.mpr ⟨j', hj, (mem_expandGo_some rest es e _ _ _).mpr ⟨hv, hm⟩⟩⟩
+    | some false =>
+      simp only [expandGo, Match]
+      rw [mem_range_flatMap_cons]
+      constructor
+      · rintro ⟨b, j', hj, hb, hm⟩
+        obtain ⟨e, he, hv, hm'⟩ := (ih _ _ _).mp hm
+        exact ⟨e, he, hv, b, j', hj, hb, hm'⟩
+      · rintro ⟨e, he, hv, b, j', hj, hb, hm⟩
+        exact ⟨b, j', hj, hb, (ih _ _ _).mpr ⟨e, he, hv, hm⟩⟩
+    | none =>
+      simp only [expandGo, Match]
+      rw [mem_range_flatMap_cons]
+      constructor
+      · rintro ⟨b, j', hj, hb, hm⟩
+        obtain ⟨e, he, hv, hm'⟩ := (ih _ _ _).mp hm
+        exact ⟨e, he, hv, b, j', hj, hb, hm'⟩
+      · rintro ⟨e, he, hv, b, j', hj, hb, hm⟩
+        exact ⟨b, j', hj, hb, (ih _ _ _).mpr ⟨e, he, hv, hm⟩⟩
+
+/-! ### every result index is produced once -/
+
+/-- no two entries of the list carry the same index -/
+def KeyND (L : List (Idx × α)) : Prop := L.Pairwise fun x y => x.1 ≠ y.1
+
+theorem keyND_iff (L : List (Idx × α)) : KeyND L ↔ (keysOf L).Nodup := by
+  unfold KeyND keysOf List.Nodup
+  rw [List.pairwise_map]
+
+theorem KeyND.map_cons {L : List (Idx × α)} (h : KeyND L) (c : Nat) :
+    KeyND (L.map fun r => (c :: r.1, r.2)) := by
+  unfold KeyND at *
+  rw [List.pairwise_map]
+  exact h.imp fun hab hh => hab (List.cons.inj hh).2
+
+theorem KeyND.range_flatMap {L : List (Idx × α)} (h : KeyND L) (sh : Nat) :
+    KeyND ((List.range sh).flatMap fun b => L.map fun r => (b :: r.1, r.2)) := by
+  unfold KeyND
+  rw [List.pairwise_flatMap]
+  refine ⟨fun b _ => h.map_cons b, ?_⟩
+  refine List.pairwise_lt_range.imp ?_
+  intro b1 b2 hlt x hx y hy
+  obtain ⟨x', _, rfl⟩ := List.mem_map.mp hx
+  obtain ⟨y', _, rfl⟩ := List.mem_map.mp hy
+  intro hh
+  have := (List.cons.inj hh).1
+  omega
+
+theorem keyND_expandGo_some (ps : List (Option Bool × Nat)) (es : List (Idx × α)) (e : Idx × α) :
+    ∀ d, KeyND (expandGo ps d (some e) es) := by
+  induction ps with
+  | nil => intro d; simp [expandGo, KeyND]
+  | cons p rest ih =>
+    intro d
+    obtain ⟨o, sh⟩ := p
+    match o with
+    | some true => simp only [expandGo]; exact (ih _).map_cons _
+    | some false => simp only [expandGo]; exact (ih _).range_flatMap _
+    | none => simp only [expandGo]; exact (ih _).range_flatMap _
+
+/-- if no result index is produced for two different stored entries, every result index occurs once -/
+theorem keyND_expandGo_none (ps : List (Option Bool × Nat)) (es : List (Idx × α)) :
+    ∀ d, es.Pairwise (fun e e' => ∀ j, Match ps d e.1 j → ¬ Match ps d e'.1 j) →
+      KeyND (expandGo ps d none es) := by
+  induction ps with
+  | nil =>
+    intro d h
+    simp only [expandGo]
+    unfold KeyND
+    rw [List.pairwise_map]
+    exact h.imp fun hab _ => hab [] rfl rfl
+  | cons p rest ih =>
+    intro d h
+    obtain ⟨o, sh⟩ := p
+    match o with
+    | some true =>
+      simp only [expandGo]
+      unfold KeyND
+      rw [List.pairwise_flatMap]
+      refine ⟨fun e _ => (keyND_expandGo_some rest es e _).map_cons _, h.imp ?_⟩
+      intro e e' hab x hx y hy hxy
+      obtain ⟨⟨jx, vx⟩, hx', rfl⟩ := List.mem_map.mp hx
+      obtain ⟨⟨jy, vy⟩, hy', rfl⟩ := List.mem_map.mp hy
+      simp only [List.cons.injEq] at hxy
+      have mx := ((mem_expandGo_some rest es e _ _ _).mp hx').2
+      have my := ((mem_expandGo_some rest es e' _ _ _).mp hy').2
+      apply hab (e.1.getD d 0 :: jx)
+      · exact ⟨jx, rfl, mx⟩
+      · refine ⟨jx, ?_, ?_⟩
+        · rw [hxy.1]
+        · rw [hxy.2]; exact my
+    | some false =>
+      simp only [expandGo]
+      by_cases hsh : sh = 0
+      · subst hsh; simp [KeyND]
+      · apply KeyND.range_flatMap
+        apply ih
+        refine h.imp ?_
+        intro e e' hab j m1 m2
+        exact hab (0 :: j) ⟨0, j, rfl, by omega, m1⟩ ⟨0, j, rfl, by omega, m2⟩
+    | none =>
+      simp only [expandGo]
+      by_cases hsh : sh = 0
+      · subst hsh; simp [KeyND]
+      · apply KeyND.range_flatMap
+        apply ih
+        refine h.imp ?_
+        intro e e' hab j m1 m2
+        exact hab (0 :: j) ⟨0, j, rfl, by omega, m1⟩ ⟨0, j, rfl, by omega, m2⟩
+
+end COO
+
+/-! ## the broadcast parameters of a real pair of shapes -/
+
+/-- aligned, equal rank: each operand extent equals the target's or is 1 -/
+def Bc1 : List Nat → List Nat → Prop
+  | [], [] => True
+  | a :: s, b :: t => (a = b ∨ a = 1) ∧ Bc1 s t
+  | [], _ :: _ => False
+  | _ :: _, [] => False
+
+/-- `src` broadcasts to `dst` (`np.broadcast_to` is defined) -/
+def BcTo (src dst : List Nat) : Prop :=
+  src.length ≤ dst.length ∧ Bc1 src (dst.drop (dst.length - src.length))
+
+theorem Bc1.length_eq : ∀ {s t : List Nat}, Bc1 s t → s.length = t.length
+  | [], [], _ => rfl
+  | _ :: s, _ :: t, h => by simp [Bc1.length_eq (s := s) (t := t) h.2]
+  | [], _ :: _, h => absurd h (by simp [Bc1])
+  | _ :: _, [], h => absurd h (by simp [Bc1])
+
+theorem bc1_of_ext : ∀ {s t : List Nat}, s.length = t.length →
+    (∀ k, k < s.length → (ext s k = ext t k ∨ ext s k = 1)) → Bc1 s t
+  | [], [], _, _ => trivial
+  | a :: s, b :: t, hl, h => by
+    have hl' : s.length = t.length := by simpa using hl
+    refine ⟨?_, bc1_of_ext hl' fun k hk => ?_⟩
+    · have := h s.length (by simp)
+      rw [ext_cons_eq] at this
+      rw [hl', ext_cons_eq] at this
+      exact this
+    · have := h k (by simp; omega)
+      rwa [ext_cons_lt hk, ext_cons_lt (by omega)] at this
+  | [], _ :: _, hl, _ => by simp at hl
+  | _ :: _, [], hl, _ => by simp at hl
+
+theorem ext_drop (t : List Nat) (m k : Nat) (hk : k < t.length - m) : ext (t.drop m) k = ext t k := by
+  rw [ext_lt (by simp; omega), ext_lt (by omega), List.getElem_drop]
+  congr 1
+  simp
+  omega
+
+theorem bcTo_of_ext {s t : List Nat} (hl : s.length ≤ t.length)
+    (h : ∀ k, k < s.length → (ext s k = ext t k ∨ ext s k = 1)) : BcTo s t := by
+  refine ⟨hl, bc1_of_ext (by simp; omega) fun k hk => ?_⟩
+  rw [ext_drop _ _ _ (by omega)]
+  exact h k hk
+
+/-- the hypothesis of `broadcast_to` in the successful case -/
+theorem bcTo_of_bshape2 {s t : List Nat} (h : bshape2 s t true = .ok t) : BcTo s t := by
+  obtain ⟨hl, h⟩ := bshape2_result_ok_self.mp h
+  exact bcTo_of_ext hl h
+
+theorem bparams_nil : bparams [] [] = [] := rfl
+
+theorem bparams_cons_none {src dst : List Nat} (b : Nat) (h : src.length ≤ dst.length) :
+    bparams src (b :: dst) = none :: bparams src dst := by
+  unfold bparams
+  simp only [List.length_cons, List.range_succ_eq_map, List.map_cons, List.map_map]
+  have h0 : 0 < dst.length + 1 - src.length := by omega
+  rw [if_pos h0]
+  congr 1
+  apply List.map_congr_left
+  intro d _
+  simp only [Function.comp]
+  have e1 : dst.length + 1 - src.length = (dst.length - src.length) + 1 := by omega
+  by_cases hd : d < dst.length - src.length
+  · rw [if_pos (by omega), if_pos hd]
+  · rw [if_neg (by omega), if_neg hd]
+    have e2 : d + 1 - (dst.length + 1 - src.length) = d - (dst.length - src.length) := by omega
+    rw [e2]
+    simp
+
+theorem bparams_cons_some {src dst : List Nat} (a b : Nat) (h : src.length = dst.length) :
+    bparams (a :: src) (b :: dst) = some (a == b) :: bparams src dst := by
+  unfold bparams
+  simp only [List.length_cons, List.range_succ_eq_map, List.map_cons, List.map_map]
+  have e0 : dst.length + 1 - (src.length + 1) = 0 := by omega
+  have e1 : dst.length - src.length = 0 := by omega
+  rw [e0, e1]
+  simp only [Nat.lt_irrefl, if_false, Nat.sub_zero, List.getD_cons_zero]
+  congr 1
+
+theorem drop_cons_getD : ∀ (ei : Idx) (d c : Nat) (tl : Idx), ei.drop d = c :: tl →
+    ei.getD d 0 = c ∧ ei.drop (d + 1) = tl
+  | [], d, c, tl, h => by simp at h
+  | x :: ei, 0, c, tl, h => by
+    simp only [List.drop_zero, List.cons.injEq] at h
+    simp [h.1, h.2]
+  | x :: ei, d + 1, c, tl, h => by
+    simp only [List.drop_succ_cons] at h
+    have := drop_cons_getD ei d c tl h
+    simpa using this
+
+/-- the projection on aligned equal-rank shapes -/
+def projEq (src : List Nat) (j : Idx) : Idx := (List.zip src j).map fun p => if p.1 = 1 then 0 else p.2
+
+theorem projIdx_eq (src dst : List Nat) (j : Idx) : projIdx src dst j = projEq src (j.drop (dst.length - src.length)) := rfl
+
+theorem match_eq_len : ∀ (src post : List Nat) (ei : Idx) (d : Nat) (j : Idx), Bc1 src post →
+    InB (ei.drop d) src →
+    (COO.Match ((bparams src post).zip post) d ei j ↔ InB j post ∧ projEq src j = ei.drop d)
+  | [], [], ei, d, j, _, hin => by
+    rw [bparams_nil]
+    simp only [List.zip_nil_left, COO.Match]
+    cases hd : ei.drop d with
+    | nil =>
+      constructor
+      · rintro rfl; exact ⟨trivial, rfl⟩
+      · rintro ⟨hj, _⟩
+        cases j with
+        | nil => rfl
+        | cons _ _ => exact absurd hj (by simp)
+    | cons c tl => rw [hd] at hin; exact absurd hin (by simp)
+  | a :: src, b :: post, ei, d, j, hb, hin => by
+    have hl : src.length = post.length := hb.2.length_eq
+    rw [bparams_cons_some a b hl, List.zip_cons_cons]
+    cases hd : ei.drop d with
+    | nil => rw [hd] at hin; exact absurd hin (by simp)
+    | cons c tl =>
+      rw [hd] at hin
+      obtain ⟨hg, hdr⟩ := drop_cons_getD ei d c tl hd
+      have hin' : InB (ei.drop (d + 1)) src := by rw [hdr]; exact hin.2
+      have ih := fun j' => match_eq_len src post ei (d + 1) j' hb.2 hin'
+      have hc : c < a := hin.1
+      by_cases hab : a = b
+      · have hbeq : (a == b) = true := by simpa using hab
+        rw [hbeq]
+        simp only [COO.Match]
+        constructor
+        · rintro ⟨j', rfl, hm⟩
+          obtain ⟨h1, h2⟩ := (ih j').mp hm
+          refine ⟨⟨by rw [hg]; omega, h1⟩, ?_⟩
+          simp only [projEq, List.zip_cons_cons, List.map_cons] at h2 ⊢
+          rw [hdr] at h2
+          rw [hg, h2]
+          by_cases ha1 : a = 1
+          · rw [if_pos ha1]; congr 1; omega
+          · rw [if_neg ha1]
+        · rintro ⟨hj, hp⟩
+          cases j with
+          | nil => exact absurd hj (by simp)
+          | cons x j' =>
+            simp only [projEq, List.zip_cons_cons, List.map_cons, List.cons.injEq] at hp
+            have hx : x < b := hj.1
+            refine ⟨j', ?_, (ih j').mpr ⟨hj.2, by rw [hdr]; exact hp.2⟩⟩
+            rw [hg]
+            congr 1
+            have := hp.1
+            split at this <;> omega
+      · have ha1 : a = 1 := by rcases hb.1 with h | h; exact absurd h hab; exact h
+        have hbeq : (a == b) = false := by simpa using hab
+        rw [hbeq]
+        simp only [COO.Match]
+        constructor
+        · rintro ⟨x, j', rfl, hx, hm⟩
+          obtain ⟨h1, h2⟩ := (ih j').mp hm
+          refine ⟨⟨hx, h1⟩, ?_⟩
+          simp only [projEq, List.zip_cons_cons, List.map_cons] at h2 ⊢
+          rw [hdr] at h2
+          rw [h2, if_pos ha1]
+          congr 1; omega
+        · rintro ⟨hj, hp⟩
+          cases j with
+          | nil => exact absurd hj (by simp)
+          | cons x j' =>
+            simp only [projEq, List.zip_cons_cons, List.map_cons, List.cons.injEq] at hp
+            exact ⟨x, j', rfl, hj.1, (ih j').mpr ⟨hj.2, by rw [hdr]; exact hp.2⟩⟩
+  | [], _ :: _, _, _, _, hb, _ => absurd hb (by simp [Bc1])
+  | _ :: _, [], _, _, _, hb, _ => absurd hb (by simp [Bc1])
+
+theorem BcTo.tail {src dst : List Nat} {b : Nat} (h : BcTo src (b :: dst)) (hl : src.length ≤ dst.length) :
+    BcTo src dst := by
+  refine ⟨hl, ?_⟩
+  have := h.2
+  have e : (b :: dst).length - src.length = (dst.length - src.length) + 1 := by simp; omega
+  rwa [e, List.drop_succ_cons] at this
+
+/-- **the loops of `_get_expanded_coords_data` on real broadcast parameters**: the result indices
+produced for a stored entry are exactly the in-bounds indices that project onto it -/
+theorem match_real : ∀ (dst src : List Nat) (ei j : Idx), BcTo src dst → InB ei src →
+    (COO.Match ((bparams src dst).zip dst) 0 ei j ↔ InB j dst ∧ projIdx src dst j = ei)
+  | [], src, ei, j, hb, hin => by
+    have := match_eq_len src [] ei 0 j (by simpa using hb.2) (by simpa using hin)
+    rw [projIdx_eq]
+    simpa using this
+  | b :: dst, src, ei, j, hb, hin => by
+    by_cases hl : src.length ≤ dst.length
+    · rw [bparams_cons_none b hl, List.zip_cons_cons]
+      simp only [COO.Match]
+      have ih := fun j' => match_real dst src ei j' (hb.tail hl) hin
+      have e : (b :: dst).length - src.length = (dst.length - src.length) + 1 := by simp; omega
+      constructor
+      · rintro ⟨x, j', rfl, hx, hm⟩
+        obtain ⟨h1, h2⟩ := (ih j').mp hm
+        refine ⟨⟨hx, h1⟩, ?_⟩
+        rw [projIdx_eq, e, List.drop_succ_cons, ← projIdx_eq]
+        exact h2
+      · rintro ⟨hj, hp⟩
+        cases j with
+        | nil => exact absurd hj (by simp)
+        | cons x j' =>
+          refine ⟨x, j', rfl, hj.1, (ih j').mpr ⟨hj.2, ?_⟩⟩
+          rw [projIdx_eq, e, List.drop_succ_cons, ← projIdx_eq] at hp
+          exact hp
+    · have hle := hb.1
+      have e : (b :: dst).length - src.length = 0 := by simp at hle ⊢; omega
+      have h2 := hb.2
+      rw [e, List.drop_zero] at h2
+      have := match_eq_len src (b :: dst) ei 0 j h2 (by simpa using hin)
+      rw [projIdx_eq, e]
+      simpa using this
+
+/-! ## index projection -/
+
+theorem projEq_self : ∀ {j : Idx} {s : List Nat}, InB j s → projEq s j = j
+  | [], [], _ => rfl
+  | x :: j, d :: s, h => by
+    simp only [projEq, List.zip_cons_cons, List.map_cons]
+    have ih : projEq s j = j := projEq_self h.2
+    unfold projEq at ih
+    rw [ih]
+    have := h.1
+    congr 1
+    split <;> omega
+  | [], _ :: _, h => absurd h (by simp)
+  | _ :: _, [], h => absurd h (by simp)
+
+theorem projIdx_self {j : Idx} {s : List Nat} (h : InB j s) : projIdx s s j = j := by
+  rw [projIdx_eq, Nat.sub_self, List.drop_zero, projEq_self h]
+
+theorem projEq_InB : ∀ {src post : List Nat} {j : Idx}, Bc1 src post → InB j post → InB (projEq src j) src
+  | [], [], [], _, _ => trivial
+  | a :: src, b :: post, x :: j, hb, hj => by
+    simp only [projEq, List.zip_cons_cons, List.map_cons, InB_cons]
+    refine ⟨?_, projEq_InB hb.2 hj.2⟩
+    have := hj.1
+    rcases hb.1 with h | h <;> split <;> omega
+  | [], [], _ :: _, _, hj => absurd hj (by simp)
+  | _ :: _, _ :: _, [], _, hj => absurd hj (by simp)
+  | [], _ :: _, _, hb, _ => absurd hb (by simp [Bc1])
+  | _ :: _, [], _, hb, _ => absurd hb (by simp [Bc1])
+
+theorem InB_drop : ∀ (m : Nat) {j : Idx} {s : List Nat}, InB j s → InB (j.drop m) (s.drop m)
+  | 0, _, _, h => by simpa using h
+  | m + 1, [], [], _ => by simp
+  | m + 1, x :: j, d :: s, h => by simpa using InB_drop m h.2
+  | _ + 1, [], _ :: _, h => absurd h (by simp)
+  | _ + 1, _ :: _, [], h => absurd h (by simp)
+
+/-- the projection of an in-bounds result index is an in-bounds operand index -/
+theorem projIdx_InB {src dst : List Nat} {j : Idx} (hb : BcTo src dst) (hj : InB j dst) :
+    InB (projIdx src dst j) src := by
+  rw [projIdx_eq]
+  exact projEq_InB hb.2 (InB_drop _ hj)
+
+theorem projEq_drop : ∀ (m : Nat) (b : List Nat) (j : Idx), (projEq b j).drop m = projEq (b.drop m) (j.drop m)
+  | 0, _, _ => by simp
+  | m + 1, [], j => by simp [projEq]
+  | m + 1, _ :: _, [] => by simp [projEq]
+  | m + 1, _ :: b, _ :: j => by
+    simp only [projEq, List.zip_cons_cons, List.map_cons, List.drop_succ_cons]
+    exact projEq_drop m b j
+
+theorem projEq_comp : ∀ {a b : List Nat} {j : Idx}, Bc1 a b → b.length = j.length →
+    projEq a (projEq b j) = projEq a j
+  | [], [], _, _, _ => by simp [projEq]
+  | x :: a, y :: b, z :: j, hb, hl => by
+    simp only [projEq, List.zip_cons_cons, List.map_cons]
+    have ih : projEq a (projEq b j) = projEq a j := projEq_comp hb.2 (by simpa using hl)
+    unfold projEq at ih
+    rw [ih]
+    congr 1
+    rcases hb.1 with h | h
+    · subst h; split <;> rfl
+    · rw [if_pos h, if_pos h]
+  | _ :: _, _ :: _, [], _, hl => by simp at hl
+  | [], _ :: _, _, hb, _ => absurd hb (by simp [Bc1])
+  | _ :: _, [], _, hb, _ => absurd hb (by simp [Bc1])
+
+/-- projections compose: reading operand `a` through an intermediate shape `b` -/
+theorem projIdx_comp {a b c : List Nat} {j : Idx} (hab : BcTo a b) (hbc : BcTo b c) (hj : InB j c) :
+    projIdx a b (projIdx b c j) = projIdx a c j := by
+  have hjl := InB_length hj
+  rw [projIdx_eq, projIdx_eq, projIdx_eq, projEq_drop, List.drop_drop]
+  have e : c.length - b.length + (b.length - a.length) = c.length - a.length := by
+    have := hab.1; have := hbc.1; omega
+  rw [e]
+  apply projEq_comp hab.2
+  simp only [List.length_drop]
+  have := hab.1; have := hbc.1
+  omega
+
+theorem mem_allIdx : ∀ {s : List Nat} {j : Idx}, j ∈ allIdx s ↔ InB j s
+  | [], j => by
+    cases j <;> simp [allIdx]
+  | d :: s, j => by
+    simp only [allIdx, List.mem_flatMap, List.mem_range, List.mem_map]
+    constructor
+    · rintro ⟨i, hi, r, hr, rfl⟩
+      exact ⟨hi, mem_allIdx.mp hr⟩
+    · intro h
+      cases j with
+      | nil => exact absurd h (by simp)
+      | cons x j => exact ⟨x, h.1, j, mem_allIdx.mpr h.2, rfl⟩
+
+/-! ## `COO.expand` and `broadcast_to` -/
+namespace COO
+variable {α : Type}
+
+/-- **every stored entry is replicated exactly over the broadcast axes** -/
+theorem mem_expand {es : List (Idx × α)} {src dst : List Nat} (hb : BcTo src dst)
+    (hwf : ∀ e ∈ es, InB e.1 src) (j : Idx) (v : α) :
+    (j, v) ∈ expand es src dst ↔ InB j dst ∧ (projIdx src dst j, v) ∈ es := by
+  unfold expand
+  rw [mem_expandGo_none]
+  constructor
+  · rintro ⟨e, he, hv, hm⟩
+    obtain ⟨h1, h2⟩ := (match_real dst src e.1 j hb (hwf e he)).mp hm
+    refine ⟨h1, ?_⟩
+    rw [h2, hv]
+    exact he
+  · rintro ⟨h1, h2⟩
+    exact ⟨_, h2, rfl, (match_real dst src _ j hb (hwf _ h2)).mpr ⟨h1, rfl⟩⟩
+
+/-- … and each result index once -/
+theorem nodup_expand {es : List (Idx × α)} {src dst : List Nat} (hb : BcTo src dst)
+    (hwf : ∀ e ∈ es, InB e.1 src) (hnd : (keysOf es).Nodup) : (keysOf (expand es src dst)).Nodup := by
+  rw [← keyND_iff]
+  unfold expand
+  apply keyND_expandGo_none
+  have hnd' : es.Pairwise fun e e' => e.1 ≠ e'.1 := by
+    unfold keysOf List.Nodup at hnd
+    rwa [List.pairwise_map] at hnd
+  have hall : es.Pairwise fun e e' => InB e.1 src ∧ InB e'.1 src := by
+    rw [List.pairwise_iff_forall_sublist]
+    intro a b hs
+    have := hs.subset
+    exact ⟨hwf a (this (by simp)), hwf b (this (by simp))⟩
+  refine (hnd'.and hall).imp ?_
+  rintro e e' ⟨hne, h1, h2⟩ j m1 m2
+  have p1 := ((match_real dst src e.1 j hb h1).mp m1).2
+  have p2 := ((match_real dst src e'.1 j hb h2).mp m2).2
+  exact hne (p1.symm.trans p2)
+
+theorem wf_expand {es : List (Idx × α)} {src dst : List Nat} (hb : BcTo src dst)
+    (hwf : ∀ e ∈ es, InB e.1 src) : ∀ e ∈ expand es src dst, InB e.1 dst := by
+  intro e he
+  exact ((mem_expand hb hwf e.1 e.2).mp he).1
+
+/-- reading the expansion at `j` is reading the operand at the projected index -/
+theorem lookup_expand {es : List (Idx × α)} {src dst : List Nat} (hb : BcTo src dst)
+    (hwf : ∀ e ∈ es, InB e.1 src) (hnd : (keysOf es).Nodup) (d : α) {j : Idx} (hj : InB j dst) :
+    lookup (expand es src dst) d j = lookup es d (projIdx src dst j) := by
+  by_cases hk : projIdx src dst j ∈ keysOf es
+  · obtain ⟨e, he, hi⟩ := List.mem_map.mp hk
+    have hm : (projIdx src dst j, e.2) ∈ es := by rw [← hi]; exact he
+    rw [lookup_of_mem hnd hm, lookup_of_mem (nodup_expand hb hwf hnd) ((mem_expand hb hwf j e.2).mpr ⟨hj, hm⟩)]
+  · rw [lookup_of_not_mem hk]
+    apply lookup_of_not_mem
+    intro hmem
+    obtain ⟨e, he, hi⟩ := List.mem_map.mp hmem
+    have : (j, e.2) ∈ expand es src dst := by rw [← hi]; exact he
+    exact hk (List.mem_map.mpr ⟨_, ((mem_expand hb hwf j e.2).mp this).2, rfl⟩)
+
+theorem not_mem_keys_expand {es : List (Idx × α)} {src dst : List Nat} (hb : BcTo src dst)
+    (hwf : ∀ e ∈ es, InB e.1 src) {j : Idx} (h : j ∉ keysOf (expand es src dst)) (hj : InB j dst) :
+    projIdx src dst j ∉ keysOf es := by
+  intro hk
+  obtain ⟨e, he, hi⟩ := List.mem_map.mp hk
+  have hm : (projIdx src dst j, e.2) ∈ es := by rw [← hi]; exact he
+  exact h (List.mem_map.mpr ⟨_, (mem_expand hb hwf j e.2).mpr ⟨hj, hm⟩, rfl⟩)
+
+/-- **`broadcast_to`.** -/
+theorem broadcastTo_spec (x : COO α) (s : List Nat) (hwf : x.WF) (hnd : x.keys.Nodup)
+    (h : bshape2 x.shape s true = .ok s) :
+    ∃ r, x.broadcastTo s = .ok r ∧ r.shape = s ∧ r.fill = x.fill ∧ r.WF ∧ r.keys.Nodup ∧
+      ∀ j, InB j s → r.get j = x.get (projIdx x.shape s j) := by
+  have hb := bcTo_of_bshape2 h
+  unfold broadcastTo
+  by_cases hs : s = x.shape
+  · rw [if_pos hs]
+    refine ⟨x, rfl, hs.symm, rfl, hwf, hnd, fun j hj => ?_⟩
+    subst hs
+    rw [projIdx_self hj]
+  · rw [if_neg hs, h]
+    simp only []
+    refine ⟨_, rfl, rfl, rfl, ?_, ?_, ?_⟩
+    · intro e he
+      simp only at he ⊢
+      split at he
+      · exact wf_expand hb hwf e he
+      · exact wf_expand hb hwf e (mem_sortEntries.mp he)
+    · show (keysOf _).Nodup
+      simp only []
+      split
+      · exact nodup_expand hb hwf hnd
+      · exact nodup_sortEntries _ _ (nodup_expand hb hwf hnd)
+    · intro j hj
+      unfold get
+      simp only []
+      split
+      · exact lookup_expand hb hwf hnd _ hj
+      · rw [lookup_sortEntries _ _ _ _ (nodup_expand hb hwf hnd)]
+        exact lookup_expand hb hwf hnd _ hj
+
+end COO
 end SparseV
